@@ -26,6 +26,7 @@ int run_preempt(const vf::Args&);
 int run_parent_race(const vf::Args&);
 int run_preempt_writer(const vf::Args&);
 int run_unlink_race(const vf::Args&);
+int run_park(const vf::Args&);
 
 int main(int argc, char** argv) {
     google::InitGoogleLogging(argv[0]);
@@ -92,6 +93,7 @@ int main(int argc, char** argv) {
     if (mode == "parent_race") { return run_parent_race(args); }
     if (mode == "preempt_writer") { return run_preempt_writer(args); }
     if (mode == "unlink_race") { return run_unlink_race(args); }
+    if (mode == "park") { return run_park(args); }
     fprintf(stderr, "unknown --mode %s\n", mode.c_str());
     return 2;
 }
